@@ -44,6 +44,11 @@ MAX_PAR = max(2, min(14, (os.cpu_count() or 4) - 2))
 ODD_PATHS = [("zzq dir with space", "my script"), ("zzq+plus~tilde", "s+c~r"), ("zzq(paren)[1]", "scr(1)"),
              ("zzq_\u00e9\u00e8_\u4e2d", "scr\u00efpt"), ("zzq#hash&amp", "a'b"), ("zzq=eq,comma@at{b}", "ok=1,2@x")]
 
+# "third-party" steps: what another extension / the user may do to IPython's hook registries between our ops
+F_OPS = ["f_rebind_ast", "f_rebind_cleanup", "f_rebind_post", "f_add_ast", "f_rm_ast", "f_filter_ast",
+         "f_add_cleanup", "f_rm_cleanup", "f_rebind_matchers", "f_set_hook"]
+F_WRAP = "f_wrap"       # foreign advice on top of a joinpoint (kept out of the generated alphabet, see notes/C14.md)
+
 OPS = ["enable", "enable_again", "disable", "load_ext", "unload_ext", "reload_ext", "run_cell", "complete"]
 
 
@@ -93,6 +98,9 @@ def make_env(root):
     os.makedirs(os.path.join(root, "db_unreadable.py"), exist_ok=True)
     with open(os.path.join(root, "db_unreadable.py", "x.py"), "w") as f:
         f.write("import zzq_mod_0\n\x00\x00garbage(\n")
+    # a module that is importable only through the implicit '' entry of sys.path (cwd of the shells = root)
+    with open(os.path.join(root, "zzq_localhelper.py"), "w") as f:
+        f.write("WHERE = 'cwd'\n")
     os.makedirs(os.path.join(root, "ipdir"), exist_ok=True)
     os.makedirs(os.path.join(root, "out"), exist_ok=True)
     return dict(root=root, mods=mods, db=db)
@@ -500,9 +508,11 @@ def model_view(ident):
             v = v.__original__
         jp[name] = ["adv", depth, ids] if depth else ["ext"]
     hl = {}
+    hlobj = {}
     for name, get in HOOKLISTS:
         hl[name] = [["pf", ident(e)] if _is_pf(e) else ["ext", ident(e)] for e in get(ip)]
-    return dict(jp=jp, hl=hl)
+        hlobj[name] = ident(get(ip))          # identity of the list object bound now
+    return dict(jp=jp, hl=hl, hlobj=hlobj)
 
 
 # ----------------------------------------------------------------------------
@@ -553,6 +563,78 @@ def _strip_pf_lines(s):
     return "".join(l for l in s.splitlines(True) if "[PYFLYBY]" not in l)
 
 
+class ZzqForeignAst:
+    """a third party's AST transformer (identity)"""
+    n = 0
+
+    def __init__(self):
+        ZzqForeignAst.n += 1
+        self.__name__ = "zzq_foreign_ast_%d" % ZzqForeignAst.n
+
+    def visit(self, node):
+        return node
+
+
+def _foreign_cleanup():
+    G["fc_n"] = G.get("fc_n", 0) + 1
+
+    def f(lines):
+        return lines
+    f.__name__ = f.__qualname__ = "zzq_foreign_cleanup_%d" % G["fc_n"]
+    return f
+
+
+def do_foreign(op):
+    ip = G["ip"]
+    itm = ip.input_transformer_manager
+    if op == "f_rebind_ast":
+        ip.ast_transformers = list(ip.ast_transformers)
+    elif op == "f_rebind_cleanup":
+        itm.cleanup_transforms = list(itm.cleanup_transforms)
+    elif op == "f_rebind_post":
+        ip.input_transformers_post = list(ip.input_transformers_post)
+    elif op == "f_add_ast":
+        ip.ast_transformers.append(ZzqForeignAst())
+    elif op == "f_rm_ast":
+        mine = [t for t in ip.ast_transformers if isinstance(t, ZzqForeignAst)]
+        if mine:
+            ip.ast_transformers.remove(mine[0])
+    elif op == "f_filter_ast":
+        ip.ast_transformers = [t for t in ip.ast_transformers if not isinstance(t, ZzqForeignAst)]
+    elif op == "f_add_cleanup":
+        itm.cleanup_transforms.append(_foreign_cleanup())
+    elif op == "f_rm_cleanup":
+        mine = [t for t in itm.cleanup_transforms if getattr(t, "__name__", "").startswith("zzq_foreign_cleanup")]
+        if mine:
+            itm.cleanup_transforms.remove(mine[0])
+    elif op == "f_rebind_matchers":
+        ip.Completer.custom_matchers = list(ip.Completer.custom_matchers)
+    elif op == "f_set_hook":
+        def zzq_foreign_completer(self, event):
+            return []
+        ip.set_hook("complete_command", zzq_foreign_completer, str_key="zzq_foreign_cmd")
+    elif op == F_WRAP:
+        import types
+        inner = ip._ofind
+
+        def _ofind(self, *a, **k):
+            return inner(*a, **k)
+        _ofind.__qualname__ = "ZzqForeign._ofind"
+        ip._ofind = types.MethodType(_ofind, ip)
+    else:
+        raise ValueError(op)
+
+
+def hook_names():
+    """names of the entries of the hook lists, pyflyby's own shown as 'PF'"""
+    ip = G["ip"]
+    out = {}
+    for name, get in HOOKLISTS + [("input_transformers_post", lambda ip: ip.input_transformers_post),
+                                  ("custom_matchers", lambda ip: ip.Completer.custom_matchers)]:
+        out[name] = ["PF" if _is_pf(e) else _vname(e) for e in get(ip)]
+    return out
+
+
 def do_op(op, arg, ident):
     """Perform one op on the child's shell.  Returns a dict (canonical)."""
     ip, app = G["ip"], G["app"]
@@ -584,6 +666,8 @@ def do_op(op, arg, ident):
                                  errmsg=(str(res.error_in_exec)[:200] if res.error_in_exec is not None else None),
                                  err_before=(type(res.error_before_exec).__name__ if res.error_before_exec is not None else None),
                                  bound_after=name in ip.user_ns)
+            elif op.startswith("f_"):
+                do_foreign(op)
             elif op == "complete":
                 name = arg
                 prefix = name[:-3]
@@ -612,7 +696,7 @@ def run_c14(job):
     steps = []
     prev = s0
     for op, arg in job["ops"]:
-        if not job.get("pf", True) and op not in ("run_cell", "complete"):
+        if not job.get("pf", True) and op not in ("run_cell", "complete") and not op.startswith("f_"):
             steps.append({"op": op, "skipped": True})
             continue
         r = do_op(op, arg, ident)
@@ -622,6 +706,7 @@ def run_c14(job):
         r["importer"] = importer_view()
         r["mv"] = model_view(ident)
         r["loaded"] = "pyflyby" in G["ip"].extension_manager.loaded
+        r["hlnames"] = hook_names()
         steps.append(r)
         prev = s
     return dict(config=G["config"], steps=steps, mv0=mv0, nkeys=len(s0))
@@ -652,6 +737,17 @@ def fill_args(ops):
         else:
             out.append([op, None])
     return out
+
+
+def add_foreign(rng, ops):
+    """insert 1-3 third-party steps at random positions of a lifecycle sequence"""
+    ops = list(ops)
+    w = {"f_rebind_ast": 4, "f_rebind_cleanup": 3, "f_rebind_post": 1, "f_add_ast": 3, "f_rm_ast": 2, "f_filter_ast": 2,
+         "f_add_cleanup": 2, "f_rm_cleanup": 1, "f_rebind_matchers": 1, "f_set_hook": 1}
+    names = list(w)
+    for _ in range(rng.choice([1, 1, 2, 2, 3])):
+        ops.insert(rng.randint(0, len(ops)), rng.choices(names, weights=[w[x] for x in names])[0])
+    return ops
 
 
 def gen_ops(rng, maxlen=6):
